@@ -167,6 +167,160 @@ func init() {
 		for _, fn := range []string{"updateQuotaNoLockWhenParentChange", "deleteQuotaNoLock", "updatePodRequestNoLock", "updatePodUsedNoLock", "rebuildAllGroupQuotaNoLock"} {
 			selfIdx(fn)
 		}
+
+		// ---- critical-section structure of the pod handlers (schedules quantifier, Proofs/C01Ext*.lean) ----
+		// (a) the hierarchy lock a public entry point takes: the first `gqm.hierarchyUpdateLock.{RLock,Lock}()` call.
+		hierLock := func(fn string) string {
+			fd := e.funcDecl(dir, recv, fn)
+			if fd == nil || fd.Body == nil {
+				e.fail("%s not found", fn)
+				return "?"
+			}
+			res, pos := "none", token.NoPos
+			ast.Inspect(fd.Body, func(n ast.Node) bool {
+				c, ok := n.(*ast.CallExpr)
+				if !ok {
+					return true
+				}
+				se, ok := c.Fun.(*ast.SelectorExpr)
+				if !ok || (se.Sel.Name != "RLock" && se.Sel.Name != "Lock") {
+					return true
+				}
+				in, ok := se.X.(*ast.SelectorExpr)
+				if !ok || in.Sel.Name != "hierarchyUpdateLock" {
+					return true
+				}
+				if pos == token.NoPos || c.Pos() < pos {
+					pos, res = c.Pos(), se.Sel.Name
+				}
+				return true
+			})
+			return res
+		}
+		fmt.Fprintf(&e.out, "\n/-- which side of hierarchyUpdateLock an entry point takes (RLock: sections of different handlers interleave; Lock: atomic) -/\n")
+		for _, fn := range []string{"OnPodAdd", "OnPodUpdate", "OnPodDelete", "ReservePod", "UnreservePod", "MigratePod", "UpdateQuota", "DeleteQuota", "ResetQuota"} {
+			fmt.Fprintf(&e.out, "def hierLock_%s : String := %s\n", fn, leanStr(hierLock(fn)))
+		}
+		// (b) the separately locked sections a handler calls, in source order.
+		//     cache: updatePodCacheNoLock(q, pod, true|false); req/used: (q, old, new) with nil-ness of old/new; setAsg: flag literal
+		nilArg := func(x ast.Expr) bool {
+			id, ok := x.(*ast.Ident)
+			return ok && id.Name == "nil"
+		}
+		sign := func(c *ast.CallExpr) string {
+			if len(c.Args) != 3 {
+				return "?"
+			}
+			switch {
+			case nilArg(c.Args[1]) && !nilArg(c.Args[2]):
+				return "+"
+			case !nilArg(c.Args[1]) && nilArg(c.Args[2]):
+				return "-"
+			case !nilArg(c.Args[1]) && !nilArg(c.Args[2]):
+				return "~"
+			}
+			return "?"
+		}
+		lit := func(c *ast.CallExpr) string {
+			if len(c.Args) != 3 {
+				return "?"
+			}
+			if id, ok := c.Args[2].(*ast.Ident); ok {
+				return id.Name
+			}
+			return "?"
+		}
+		sections := func(fn string) {
+			fd := e.funcDecl(dir, recv, fn)
+			fmt.Fprintf(&e.out, "def sections_%s : List String := [", fn)
+			if fd == nil || fd.Body == nil {
+				e.fail("%s not found", fn)
+				fmt.Fprintf(&e.out, "]\n")
+				return
+			}
+			first := true
+			ast.Inspect(fd.Body, func(n ast.Node) bool {
+				c, ok := n.(*ast.CallExpr)
+				if !ok {
+					return true
+				}
+				tok := ""
+				switch callName(c) {
+				case "updatePodCacheNoLock":
+					switch lit(c) {
+					case "true":
+						tok = "cacheAdd"
+					case "false":
+						tok = "cacheRemove"
+					default:
+						tok = "cache?"
+					}
+				case "updatePodRequestNoLock":
+					tok = "req" + sign(c)
+				case "updatePodUsedNoLock":
+					tok = "used" + sign(c)
+				case "updatePodIsAssignedNoLock", "UpdatePodIsAssigned":
+					tok = "setAsg:" + lit(c)
+				case "updateGroupDeltaRequestNoLock", "updateGroupDeltaUsedNoLock", "resetQuotaNoLock":
+					tok = "other:" + callName(c) // a handler must not touch the figures any other way
+				}
+				if tok == "" {
+					return true
+				}
+				if !first {
+					fmt.Fprintf(&e.out, ", ")
+				}
+				first = false
+				fmt.Fprintf(&e.out, "%s", leanStr(tok))
+				return true
+			})
+			fmt.Fprintf(&e.out, "]\n")
+		}
+		fmt.Fprintf(&e.out, "\n/-- the separately locked sections of a handler in source order (req/used: + = (nil,pod), - = (pod,nil), ~ = (old,new)) -/\n")
+		for _, fn := range []string{"OnPodAdd", "OnPodUpdate", "OnPodDelete", "ReservePod", "UnreservePod", "MigratePod"} {
+			sections(fn)
+		}
+		// (c) the PodCache mutators / readers of quota_info.go hold QuotaInfo.lock: first statement `qi.lock.{Lock,RLock}()`,
+		//     second statement the matching deferred unlock.
+		cacheLock := func(fn string) string {
+			fd := e.funcDecl(dir, "QuotaInfo", fn)
+			if fd == nil || fd.Body == nil || len(fd.Body.List) < 2 {
+				e.fail("QuotaInfo.%s not found", fn)
+				return "?"
+			}
+			kind := func(x ast.Expr) string {
+				c, ok := x.(*ast.CallExpr)
+				if !ok {
+					return ""
+				}
+				se, ok := c.Fun.(*ast.SelectorExpr)
+				if !ok {
+					return ""
+				}
+				in, ok := se.X.(*ast.SelectorExpr)
+				if !ok || in.Sel.Name != "lock" {
+					return ""
+				}
+				return se.Sel.Name
+			}
+			es, ok := fd.Body.List[0].(*ast.ExprStmt)
+			if !ok {
+				return "none"
+			}
+			ds, ok := fd.Body.List[1].(*ast.DeferStmt)
+			if !ok {
+				return "none"
+			}
+			l, u := kind(es.X), kind(ds.Call)
+			if (l == "Lock" && u == "Unlock") || (l == "RLock" && u == "RUnlock") {
+				return l
+			}
+			return "none"
+		}
+		fmt.Fprintf(&e.out, "\n/-- QuotaInfo.lock held (first statement, deferred unlock) by the PodCache mutators / readers -/\n")
+		for _, fn := range []string{"addPodIfNotPresent", "removePodIfPresent", "UpdatePodIsAssigned", "IsPodExist", "CheckPodIsAssigned"} {
+			fmt.Fprintf(&e.out, "def cacheLock_%s : String := %s\n", fn, leanStr(cacheLock(fn)))
+		}
 	}
 }
 
